@@ -6,6 +6,6 @@ CONSTANTS
   Unbounded = 2147483647
   Thresh = 1000
   CapMode = "min"
-  Exact = TRUE
+  Exact = FALSE
 POSTCONDITION TraceAccepted
 CHECK_DEADLOCK FALSE
